@@ -13,7 +13,7 @@ from .core import Violation
 # ============================================================================================
 
 FREE = {'U': ('uniform', -2.0, 5.0), 'V': ('uniform', 0.0, 1.0), 'N': ('norm', 1.0, 2.0)}
-FIXED = {'Fi': 3, 'Ff': 2.5, 'Fn': np.float64(-1.5)}
+FIXED = {'Fi': 3, 'Ff': 2.5, 'Fn': np.float64(-1.5), 'Fz': 0, 'Fz0': 0.0, 'Fnz': np.float64(0.0)}
 
 
 def _dist_arg(tok):
@@ -42,7 +42,7 @@ def programs(length, tier):
     # thorough: the full token alphabet up to length 4, the reduced one at length 5
     reduced = tier == 'quick' or length >= 5
     free = ['U', 'N'] if reduced else ['U', 'V', 'N']
-    fixed = ['Ff'] if reduced else ['Fi', 'Ff', 'Fn']
+    fixed = ['Ff', 'Fz'] if reduced else ['Fi', 'Ff', 'Fn', 'Fz', 'Fz0']
 
     def rec(i, prog):
         if i == length:
@@ -50,7 +50,7 @@ def programs(length, tier):
             return
         toks = list(free) + list(fixed) + [('L', j) for j in range(i)]
         if reduced and i == 1:
-            toks = toks + ['Fi', 'Fn']          # every fixed-number type appears somewhere
+            toks = toks + ['Fi', 'Fn', 'Fz0', 'Fnz']  # every fixed-number type appears somewhere
         for km in ('k', 'a'):
             for t in toks:
                 yield from rec(i + 1, prog + [(km, t)])
@@ -276,7 +276,7 @@ def compare(p, ref, first_only=False):
 
 
 MALFORMED = ['duplicate-key', 'explicit-collides-with-auto', 'auto-collides-with-explicit',
-             'self-link-named', 'self-link-auto', 'link-undeclared', 'non-string-key',
+             'self-link-named', 'self-link-auto', 'link-undeclared', 'link-empty-key', 'non-string-key',
              'list-as-dist']
 
 
@@ -299,6 +299,8 @@ def malformed_args(kind, p, ref):
         return (None, 'x_{}'.format(n))
     if kind == 'link-undeclared':
         return ('lnk', 'nowhere')
+    if kind == 'link-empty-key':
+        return ('lnk', '')
     if kind == 'non-string-key':
         return (5, (0.0, 1.0))
     if kind == 'list-as-dist':
@@ -543,12 +545,60 @@ def compute_centres(max_size, viol, stats):
     return sorted(centres)
 
 
+def ordered_periodic_sets(viol, stats):
+    """PhaseShift.compute / transform with periodic index sets in EVERY order (d = 3, all ordered
+    non-empty subsets) on point sets whose coordinates need a different shift in every dimension: per
+    periodic dimension the largest gap must lie across the boundary after the shift, non-periodic
+    dimensions stay untouched, the round trip closes"""
+    from nautilus.bounds.periodic import PhaseShift
+    cols = [np.array([0.02, 0.05, 0.93, 0.97, 0.99]),       # wraps around 0/1
+            np.array([0.40, 0.45, 0.50, 0.55, 0.60]),       # central
+            np.array([0.70, 0.75, 0.80, 0.15, 0.20])]       # gap in the middle
+    n = 0
+    for rot in range(3):
+        pts = np.stack([cols[(j + rot) % 3] for j in range(3)], axis=-1)
+        for r in (1, 2, 3):
+            for periodic in itertools.permutations(range(3), r):
+                n += 1
+                sh = PhaseShift.compute(pts, np.array(periodic))
+                out = sh.transform(pts)
+                back = sh.transform(out, inverse=True)
+                for dim in range(3):
+                    x = np.sort(pts[:, dim])
+                    if dim in periodic:
+                        gap = float(np.max(np.append(np.diff(x), x[0] - (x[-1] - 1))))
+                        spread = float(np.max(out[:, dim]) - np.min(out[:, dim]))
+                        if spread > 1.0 - gap + 4 * ULP1:
+                            viol.setdefault('gap-not-across-boundary:ordered-periodic', (
+                                'periodic={} (this order): after the shift dimension {} spans {!r} '
+                                'although its largest circular gap is {!r}'.format(
+                                    list(periodic), dim, spread, gap),
+                                dict(kind='ordered', periodic=list(periodic), rot=rot)))
+                        if np.any(circ(back[:, dim], pts[:, dim]) > 4 * ULP1):
+                            viol.setdefault('roundtrip:ordered-periodic', (
+                                'periodic={}: inverse(forward(x)) != x in dimension {}'.format(
+                                    list(periodic), dim), dict(kind='ordered',
+                                                               periodic=list(periodic), rot=rot)))
+                    elif not np.array_equal(out[:, dim], pts[:, dim]):
+                        viol.setdefault('nonperiodic-coordinate-changed', (
+                            'periodic={}: dimension {} changed'.format(list(periodic), dim),
+                            dict(kind='ordered', periodic=list(periodic), rot=rot)))
+                if np.any(out < 0) or np.any(out >= 1):
+                    viol.setdefault('range:output-outside-unit-cube', (
+                        'periodic={} ordered-set case'.format(list(periodic)),
+                        dict(kind='ordered', periodic=list(periodic), rot=rot)))
+    stats['evaluations'] += n * 5
+    stats['ordered_sets'] = n
+    return n
+
+
 def _shard_C16(tier, shard, n_shards):
     viol = {}
     stats = dict(evaluations=0, multisets=0, cases=set())
     k = 8 if tier == 'quick' else 64
     centres = [i / 64.0 for i in range(64)]
     if shard == 0:
+        ordered_periodic_sets(viol, stats)
         cc = compute_centres(4 if tier == 'quick' else 5, viol, stats)
     else:
         cc = compute_centres(3, {}, dict(evaluations=0, multisets=0, cases=set()))
@@ -590,7 +640,8 @@ def run_C16(tier):
         rule='centres {{k/64}} + centres computed by PhaseShift.compute on all multisets of size '
              '1..{} over {{0,1/8,..,7/8, next(0), prev(1)}}; every non-empty periodic index set in '
              'd=2,3; inputs = every float within +-{} ulps of 0, prev(1), the forward and inverse '
-             'wrap positions and the centre, plus the 1/8 grid; both directions. A case is one '
+             'wrap positions and the centre, plus the 1/8 grid; both directions; plus all 45 ORDERED '
+             'periodic index sets of d=3 on point sets needing a different shift per dimension. A case is one '
              '(centre, d, periodic set, direction) tuple; distinct by construction.'.format(
                  4 if tier == 'quick' else 5, 8 if tier == 'quick' else 64),
         multisets=res[0]['multisets'], centres=sum(r['centres'] for r in res),
@@ -627,7 +678,9 @@ def replay(prop, path):
     else:
         viol = {}
         stats = dict(evaluations=0, multisets=0, cases=set())
-        if 'center' in r:
+        if r.get('kind') == 'ordered':
+            ordered_periodic_sets(viol, stats)
+        elif 'center' in r:
             check_transform([r['center']], 64, viol, stats)
         else:
             compute_centres(5, viol, stats)
